@@ -76,7 +76,7 @@ fn deser_inputs() -> Vec<Vec<u8>> {
 
 // ---- stepping evaluator vs consensus evaluator on (program, env) given as CLVM bytes
 fn build_tree(a: &mut clvmr::Allocator, depth: usize, tag: &mut u8) -> clvmr::NodePtr {
-    if depth == 0 { *tag = tag.wrapping_add(1); let t = [b'a' + (*tag % 26), *tag]; return a.new_atom(&t).unwrap(); }
+    if depth == 0 { *tag = tag.wrapping_add(1); let t = [b'a' + (*tag % 26), *tag, (*tag).wrapping_mul(31)]; return a.new_atom(&t).unwrap(); }
     let l = build_tree(a, depth - 1, tag);
     let r = build_tree(a, depth - 1, tag);
     a.new_pair(l, r).unwrap()
@@ -100,7 +100,7 @@ fn step_vs_consensus(prog: &[u8], envsel: u8) -> Option<Value> {
         let mut a = clvmr::Allocator::new();
         let p = match clvmr::serde::node_from_bytes(&mut a, &prog) { Ok(p) => p, Err(_) => return None };
         let mut tag = 0u8;
-        let env = match envsel { 0 => build_tree(&mut a, 4, &mut tag), 1 => comb(&mut a, 20, true), 2 => comb(&mut a, 20, false), _ => a.nil() };
+        let env = match envsel { 0 => build_tree(&mut a, 4, &mut tag), 1 => comb(&mut a, 20, true), 2 => comb(&mut a, 20, false), 3 => build_tree(&mut a, 17, &mut tag), _ => a.nil() };
         let runner = Rc::new(DefaultProgramRunner::new());
         let cons = runner.run_program(&mut a, p, env, None).ok().and_then(|r| clvmr::serde::node_to_bytes(&a, r.1).ok());
         let loc = Srcloc::start("*replay*");
@@ -140,7 +140,7 @@ fn optimizer_vs_consensus(prog: &[u8], envsel: u8) -> Option<Value> {
         let mut a = clvmr::Allocator::new();
         let p = match clvmr::serde::node_from_bytes(&mut a, &prog) { Ok(p) => p, Err(_) => return None };
         let mut tag = 0u8;
-        let env = match envsel { 0 => build_tree(&mut a, 4, &mut tag), 1 => comb(&mut a, 20, true), 2 => comb(&mut a, 20, false), _ => a.nil() };
+        let env = match envsel { 0 => build_tree(&mut a, 4, &mut tag), 1 => comb(&mut a, 20, true), 2 => comb(&mut a, 20, false), _ => build_tree(&mut a, 17, &mut tag) };
         let runner = Rc::new(DefaultProgramRunner::new());
         let orig = runner.run_program(&mut a, p, env, None).ok().and_then(|r| clvmr::serde::node_to_bytes(&a, r.1).ok())?;
         let opt = match optimize_sexp(&mut a, p, runner.clone()) { Ok(o) => o, Err(e) => return Some((Some(orig), None, format!("optimizer rejected: {:?}", e))) };
@@ -161,7 +161,7 @@ fn optimizer_programs() -> Vec<Vec<u8>> {
     let mut paths: Vec<Vec<u8>> = vec![];
     for b in [1u8, 2, 3, 5, 6, 7, 0x3f, 0x40, 0x7f] { paths.push(vec![b]); }
     for b in [0x80u8, 0x81, 0xc0, 0xff] { paths.push(vec![0x81, b]); }
-    for (hi, lo) in [(0x00u8, 0x80u8), (0x00, 0xff), (0x01, 0x00), (0x7f, 0xff), (0x80, 0x00), (0xff, 0x80), (0xff, 0xff)] { paths.push(vec![0x82, hi, lo]); }
+    for hi in [0x00u8, 0x01, 0x7f, 0x80, 0xfe, 0xff] { for lo in [0x00u8, 0x01, 0x7f, 0x80, 0xff] { if hi != 0 || lo != 0 { paths.push(vec![0x82, hi, lo]); } } }
     paths.push(vec![0x83, 0x00, 0xff, 0xff]); paths.push(vec![0x83, 0xff, 0xff, 0xff]); paths.push(vec![0x84, 0x00, 0x00, 0x00, 0x07]);
     for p in &paths {
         for op in [5u8, 6u8] { let mut x = vec![0xff, op, 0xff]; x.extend(p); x.push(0x80); v.push(x); }
@@ -271,13 +271,13 @@ pub fn search(name: &str, _seed: u64) -> Value {
             nf("conversion round trip and the three tree hashes agree on the enumerated values in both integer modes")
         }
         "path_optimizer" | "sub_args" | "path_from_args" | "optimize_sexp" | "path_number_from_u8" | "new" | "add" | "first" | "rest" | "as_path" | "seems_constant" => {
-            for p in optimizer_programs() { for e in 0..3u8 {
+            for p in optimizer_programs() { for e in 0..4u8 {
                 if let Some(mut v) = optimizer_vs_consensus(&p, e) { v["input"] = json!({"program": p, "env": e}); return v; }
             } }
-            nf("optimize_sexp preserves the value of the enumerated programs x 3 environments")
+            nf("optimize_sexp preserves the value of the enumerated programs x 4 environments (incl. a full tree of depth 17)")
         }
         "choose_path" | "flatten_signed_int" | "truthy" | "atom_value" | "run_step" | "combine" | "eval_args" | "generate_argument_refs" => {
-            for p in stepper_programs() { for e in 0..4u8 {
+            for p in stepper_programs() { for e in 0..5u8 {
                 if let Some(mut v) = step_vs_consensus(&p, e) { v["input"] = json!({"program": p, "env": e}); return v; }
             } }
             nf("stepper agrees with clvmr run_program on the enumerated programs x 4 environments")
